@@ -116,16 +116,29 @@ func specAssert(b bool) {
 // C04 top level: the mailbox name derived from an address.
 
 //@ pred spec_noUpper(m string) bool = forall k int :: { m[k] } 0 <= k && k < len(m) ==> !('A' <= m[k] && m[k] <= 'Z')
+//@ pred spec_asciiStr(m string) bool = forall k int :: { m[k] } 0 <= k && k < len(m) ==> m[k] < 128
+
+// Canonical letter case of a name: no upper-case ASCII letter, except inside the tag of an IPv6
+// address literal ("[IPv6:"), which domain validation only recognises in that spelling.
+//@ pred spec_tagAt(m string, p int) bool = 0 <= p && p+6 <= len(m) && m[p] == '[' && m[p+1] == 'I' && m[p+2] == 'P' && m[p+3] == 'v' && m[p+4] == '6' && m[p+5] == ':'
+//@ pred spec_canonCase(m string) bool = forall k int :: { m[k] } 0 <= k && k < len(m) && 'A' <= m[k] && m[k] <= 'Z' ==>
+//@     (m[k] == 'I' && spec_tagAt(m, k-1)) || (m[k] == 'P' && spec_tagAt(m, k-2))
+
+//@ func canonicalDomain
+//@   requires spec_asciiStr(domain)
+//@   ensures len(ret) == len(domain) && spec_canonCase(ret)
+//@   ensures forall k int :: { ret[k] } 0 <= k && k < len(ret) ==> ret[k] < 128 && (ret[k] == '+') == (domain[k] == '+')
+//@   serves C04
 
 //@ func extractDomainMailbox
 //@   ensures ret1 == nil ==> len(ret0) > 0
-//@   ensures[canonicalCase] ret1 == nil ==> spec_noUpper(ret0)
+//@   ensures[canonicalCase] ret1 == nil ==> spec_canonCase(ret0)
 //@   serves C04
 
 //@ func (*Addressing).ExtractMailbox
 //@   requires a.Config != nil
 //@   ensures[nonEmpty] ret1 == nil ==> len(ret0) > 0
-//@   ensures[canonicalCase] ret1 == nil ==> spec_noUpper(ret0)
+//@   ensures[canonicalCase] ret1 == nil ==> spec_canonCase(ret0)
 //@   ensures[noPlusLocal] ret1 == nil && a.Config.MailboxNaming == config.LocalNaming ==> spec_noPlus(ret0)
 //@   serves C04
 
